@@ -342,10 +342,13 @@ func (pl *planner) firstCall(e ast.Expr) (call *ast.CallExpr, blocked bool) {
 			}
 			pre = append(pre, x.Args...)
 			for _, a := range pre {
-				if c, b := pl.firstCall(a); c != nil {
-					return c, b
-				} else if b {
-					return nil, true
+				// the arguments travel with the call (they are evaluated, in order, where the call was); only a
+				// candidate call nested in them has to be inlined first
+				if c, _ := pl.firstCall(a); c != nil {
+					return c, false
+				}
+				if pl.hasCandidate(a) {
+					return nil, true // a nested candidate in a position that cannot be hoisted yet
 				}
 			}
 			return x, false
@@ -364,6 +367,22 @@ func (pl *planner) firstCall(e ast.Expr) (call *ast.CallExpr, blocked bool) {
 		return nil, false
 	}
 	return nil, false
+}
+
+func (pl *planner) hasCandidate(e ast.Expr) bool {
+	found := false
+	ast.Inspect(e, func(n ast.Node) bool {
+		if c, ok := n.(*ast.CallExpr); ok {
+			if callee := pl.staticCallee(c); callee != nil && pl.cand[callee] {
+				found = true
+			}
+		}
+		if _, ok := n.(*ast.FuncLit); ok {
+			return false
+		}
+		return !found
+	})
+	return found
 }
 
 // tryStmt plans the inlining of the first hoistable candidate call of statement s.
